@@ -100,6 +100,23 @@ class ClassInfo:
         return False
 
 
+def _static_version_test(test):
+    """value of a module-level test that mentions nothing but sys.version_info and constants; None if it mentions more"""
+    for x in ast.walk(test):
+        if isinstance(x, ast.Name) and x.id != 'sys':
+            return None
+        if isinstance(x, ast.Attribute) and not (isinstance(x.value, ast.Name) and x.value.id == 'sys' and x.attr == 'version_info'):
+            return None
+        if isinstance(x, (ast.Call, ast.Lambda)):
+            return None
+    class _S:
+        version_info = (3, 12, 1, 'final', 0)
+    try:
+        return bool(eval(compile(ast.Expression(body=test), '<version test>', 'eval'), {'__builtins__': {}}, {'sys': _S}))
+    except Exception:      # noqa
+        return None
+
+
 class ModuleInfo:
     def __init__(self, name, path):
         self.name = name
@@ -148,6 +165,11 @@ class ModuleInfo:
                 # branch CPython 3 takes for `sys.version_info[0] == 2`-style tests; otherwise scan both, later wins
                 if isinstance(n, ast.If):
                     txt = ast.unparse(n.test)
+                    dec = _static_version_test(n.test) if 'version_info' in txt else None
+                    if dec is not None:
+                        # `sys.version_info[...] <op> (tuple)`: the branch CPython 3.12 takes (same value as models ('sys','version_info'))
+                        self._scan(n.body if dec else n.orelse)
+                        continue
                     if 'version_info' in txt and ('== 2' in txt or '< 3' in txt or '<3' in txt):
                         self._scan(n.orelse)
                         continue
@@ -196,6 +218,15 @@ class ModuleInfo:
                 m = load_module(d[1])
                 if m:
                     return m.resolve_static(ast.Name(id=d[2]))
+                if not d[1].startswith('Crypto'):
+                    # base class imported from the standard library (e.g. abc.ABC through py3compat): the real python class
+                    import importlib
+                    try:
+                        py = getattr(importlib.import_module(d[1]), d[2], None)
+                    except ImportError:
+                        py = None
+                    if isinstance(py, type):
+                        return py
         if isinstance(node, ast.Attribute):
             if isinstance(node.value, ast.Name):
                 d = self.defs.get(node.value.id)
